@@ -239,3 +239,6 @@ package stubs
 //@ extern strconv.FormatUint
 //@   ensures base == 10 ==> result == decimalOf(int(i))
 
+
+//@ extern bytes.TrimSpace
+//@   ensures len(result) <= len(s) && (result == nil || sameBacking(result, s))
